@@ -16,8 +16,8 @@ func C11_Steps() {
 		caches: []int{0}, fast: []bool{false}, thresh: []int{0}, avl: true,
 		final: c11Final}
 	if vTier() == "thorough" {
-		cfg.nKeys = 6
-		cfg.maxOps = 7
+		cfg.nKeys = 5
+		cfg.maxOps = 5
 	}
 	vStartHist(cfg).run()
 }
